@@ -201,6 +201,20 @@ def run(ctx):
                                       d.get("real"), d.get("evaluator")), d)
     except Exception as ex:
         ctx.correspondence_broken("compiletie4-crashed", repr(ex)[:500])
+    # level 7 (engine compile4 again): level 4 + one-dimensional int arrays — array literals bound by let / var
+    # (the elements last to first; INT n; MK_INIT_ARRAY 1), index reads in and out of bounds (ARRAYREF_DEREF 1,
+    # index_out_of_bounds through the exception table, also inside closures and catch clauses), element assignment
+    try:
+        from checks.parts import compiletie
+        ct7 = compiletie.run_compiletie(ctx, 400 if ctx.tier == "quick" else 4000, ctx.seed, level=7)
+        if ct7:
+            for d in ct7["run_diffs"][:3]:
+                if d.get("valuevm") is not None and d.get("valuevm") == d.get("evaluator"):
+                    ctx.violation("compiletie7:real-differs-from-evaluator:case%s" % d.get("case"),
+                                  "F7 program: the real VM gives %s, the evaluator (and the value-level VM model) %s" % (
+                                      d.get("real"), d.get("evaluator")), d)
+    except Exception as ex:
+        ctx.correspondence_broken("compiletie7-crashed", repr(ex)[:500])
     ctx.assumptions.extend(NOT_MODELLED)
     ctx.coverage["disagreeing_cases"] = len(r["c02"])
     ctx.coverage["corpus_programs"] = ncorpus
